@@ -549,7 +549,7 @@ def thin_reps(slots: List[Slot], tier: str) -> List[Slot]:
     return out
 
 
-def make_fn(name: str, fam: str, key, slots: List[Slot]):
+def make_fn(name: str, fam: str, key, slots: List[Slot], oracle=None):
     """emit and exec the harness function for one (class, shape)"""
     params, pre, body, items = [], [], [], []
     for i, s in enumerate(slots):
@@ -573,7 +573,7 @@ def make_fn(name: str, fam: str, key, slots: List[Slot]):
     expr = ' + '.join(items) if items else '[]'
     src = (f'def {name}({", ".join(params)}) -> bool:\n' + '\n'.join(body) + ('\n' if body else '') +
            f'    return _roundtrip({fam!r}, {key!r}, {expr})\n')
-    ns = {'_roundtrip': roundtrip}
+    ns = {'_roundtrip': oracle or roundtrip}
     exec(compile(src, f'<gencodec {name}>', 'exec'), ns)
     fn = ns[name]
     fn.__module__ = 'vf.gencodec'
@@ -583,7 +583,7 @@ def make_fn(name: str, fam: str, key, slots: List[Slot]):
     return fn, pre_lines
 
 
-def conditions(families: List[str], timeout=(15.0, 60.0)) -> List[Cond]:
+def conditions(families: List[str], timeout=(15.0, 60.0), oracle=None, prefix='', family=None, kernels=None, bounds=None, tiers_filter=None) -> List[Cond]:
     out: List[Cond] = []
     skipped = []
     for fam in families:
@@ -606,15 +606,15 @@ def conditions(families: List[str], timeout=(15.0, 60.0)) -> List[Cond]:
                     slots = thin_q if tier == 'quick' else thin_t
                     if differs and tier == 'quick':
                         tag += 'q'
-                    name = f'{fam}_{f.label(key, cls)}_{tag}'
+                    name = f'{prefix}{fam}_{f.label(key, cls)}_{tag}'
                     same = next((c for c in out if c.name == name), None)
                     if same is not None:
                         same.tiers = tuple(sorted(set(same.tiers) | {tier}))
                         continue
-                    fn, pre = make_fn(name.replace('-', '_'), fam, key, slots)
+                    fn, pre = make_fn(name.replace('-', '_'), fam, key, slots, oracle)
                     nsym = sum(1 for s in slots if s.kind != 'const')
-                    out.append(Cond(name=name, fn=fn, pre=pre, family=fam, tiers=(tier,), timeout=timeout, kernels=f.kernels,
-                                    bounds=f'{fam}: every registered class; control bytes (array counts, length bytes) fixed per shape '
+                    out.append(Cond(name=name, fn=fn, pre=pre, family=family or fam, tiers=(tier,), timeout=timeout, kernels=kernels or f.kernels,
+                                    bounds=bounds or f'{fam}: every registered class; control bytes (array counts, length bytes) fixed per shape '
                                            f'(quick: 0/1, thorough: 0..3), all other parameter bytes symbolic 0..255, enum/flag bytes over representatives'))
     conditions.skipped = skipped
     return out
